@@ -727,6 +727,48 @@ def empty_reopen_battery(ops_after):
     return out
 
 
+def big_torn_battery(ops_after):
+    """torn tails of files LARGER than one scan buffer (not a whole number of buffers), sparse (every line
+    its own section) and dense-with-pauses: the index is rebuilt over several buffers; the series must be
+    the series of the surviving lines - accessors, and the append rule relative to the last survivor"""
+    out = []
+    for p, sparse in ((8, True), (0, True), (4, False), (8, False)):
+        if sparse:
+            count = lines_for_bytes(p, 16384 + 4700, True)
+            h = Hist(p)
+            h.new()
+            h.pushrun(86400, 86400, count, 11)
+        else:
+            h = Hist(p)
+            h.new()
+            h.pushrun(1000, 1, 1200, 5)
+            h.pushrun(h.last() + 100000, 1, 500, 6)
+            h.pushrun(h.last() + 100000, 1, 50, 7)
+            h.pushrun(h.last() + 100000, 1, 1, 8)
+        H = header_len(p, 0)
+        total = H + h.off
+        h.op("close")
+        h.op("save 0")
+        for cut, ix in ((1, None), (1, "rm index"), (h.ls + 1, None), (h.ms + h.ls + 3, "rm index")):
+            h.op("restore 0")
+            h.op(f"cut data {total - cut}")
+            if ix:
+                h.op(ix)
+            h.open()
+            for a in ops_after:
+                h.op(a)
+            # whatever survived: its last timestamp is at most the last pushed one; equal and older
+            # timestamps relative to the SURVIVOR must be refused, which the model decides
+            for t in (h.ts[-1], h.ts[-2], h.ts[-3], h.ts[-1] + 1):
+                h.op(f"push ts={t} pl={hexs(bytes(p))}")
+                h.op("range")
+            h.op("read_all s=I:" + str(h.ts[-4]) + " e=U")
+            h.op("close")
+            h.op("files")
+        out.append((f"big-torn-{'sparse' if sparse else 'dense'}-p{p}", h.script()))
+    return out
+
+
 def gen_C03(rng, tier):
     out = refusals_with_caches_battery(rng, tier, ["files", "len", "range"])
     for h0 in _histories(rng, tier, PAYLOADS_SMALL):
@@ -761,6 +803,7 @@ def gen_C03(rng, tier):
         out.append(("refuse", h.script()))
     out += torn_tail_battery(rng)
     out += index_lag_battery(rng, ["range", "len", "last_line"])
+    out += big_torn_battery(["range", "len", "last_line"])
     out += stale_bucket_battery(tier)         # appends after a tear must be accepted with caches too
     return out
 
